@@ -185,7 +185,9 @@ def stepSt (s : St) (toks : List String) : Option St × String :=
     | some k => (some { s with a := { s.a with owner := k } }, "ok")
     | none => bad (some s)
   | ["poke", off, h] =>
-    match off.toNat?, parseHex h with
+    let offN : Option Nat :=
+      if off.length ≤ 9 ∧ off ≠ "" ∧ off.toList.all Char.isDigit then off.toNat? else none
+    match offN, parseHex h with
     | some off, some bs =>
       if off + bs.length ≤ s.a.data.length ∧ bs ≠ [] then
         (some { s with a := { s.a with data := s.a.data.take off ++ bs ++ s.a.data.drop (off + bs.length) } }, "ok")
